@@ -1,17 +1,23 @@
-use quote::quote_spanned;
-use syn::{spanned::Spanned, Type};
+use syn::{parse_quote, Type};
 
-use crate::common::{r#type::dereference_changed, tools::HashType};
+use crate::common::tools::HashType;
 
+/// References are kept as written; only an elided lifetime is read as `'static`.
 #[inline]
 pub(crate) fn to_hash_type(ty: &Type) -> HashType {
-    let (ty, is_ref) = dereference_changed(ty);
+    let mut ty = ty.clone();
 
-    let ty = if is_ref {
-        syn::parse2(quote_spanned!( ty.span() => &'static #ty )).unwrap()
-    } else {
-        ty.clone()
-    };
+    fill_elided_lifetimes(&mut ty);
 
     HashType::from(ty)
+}
+
+fn fill_elided_lifetimes(ty: &mut Type) {
+    if let Type::Reference(ty) = ty {
+        if ty.lifetime.is_none() {
+            ty.lifetime = Some(parse_quote!('static));
+        }
+
+        fill_elided_lifetimes(ty.elem.as_mut());
+    }
 }
